@@ -29,7 +29,7 @@ def tbl(pkg, test, shards, engine, race=False, wall=900):
 # ---- SIM-only properties ----
 plan("C01", "exploration",
      [sim("elections", 25), sim("random", 10), sim("churn", 8), sim("notify", 10), sim("xfervote", 8)],
-     [sim("elections", 230), sim("random", 130), sim("churn", 100), sim("fig8", 70), sim("notify", 100), sim("xfervote", 70), sim("elections", 60, race=True)],
+     [sim("elections", 230), sim("random", 130), sim("churn", 100), sim("fig8", 70), sim("notify", 100), sim("xfervote", 70), sim("staletn", 50), sim("elections", 60, race=True)],
      {"leader-elected": 2}, "at least two leader elections",
      {"quick": {"leader-elected": 200}, "thorough": {"leader-elected": 1250}})
 plan("C02", "exploration",
@@ -78,8 +78,8 @@ plan("C17", "exploration",
      {"call:apply": 10}, "client futures were observed (and, for the shutdown family, calls raced with and followed Shutdown)",
      {"quick": {"after-shutdown-call": 100}, "thorough": {"after-shutdown-call": 500}})
 plan("C18", "exploration",
-     [sim("notify", 34), sim("random", 8), sim("elections", 8), sim("notifyblock", 10)],
-     [sim("notify", 330), sim("random", 100), sim("elections", 130), sim("storefail", 50), sim("notifyblock", 80)],
+     [sim("notify", 30), sim("random", 8), sim("elections", 8), sim("notifyblock", 8), sim("staletn", 8)],
+     [sim("notify", 330), sim("random", 100), sim("elections", 130), sim("storefail", 50), sim("notifyblock", 80), sim("staletn", 80)],
      {"notify": 2}, "leadership notifications were delivered",
      {"quick": {"notify": 150, "leader-sample-checked": 100}, "thorough": {"notify": 1000}})
 plan("C20", "exploration",
